@@ -480,7 +480,7 @@ class Expectation(Pytree):
         return self.prog.jvp_estimate(key, dual_tree, _identity)
 
     def estimate(self, key, args):
-        tangents = jtu.tree_map(lambda _: 0.0, args)
+        tangents = jtu.tree_map(jnp.zeros_like, args)
         return self.jvp_estimate(key, Dual.dual_tree(args, tangents)).primal
 
     ##################################
